@@ -344,3 +344,64 @@ Example C02_registry_premises_satisfiable :
   Proofs.ClientIndex.resolves ex_ix (fun _ => None) guest (ci_addr ex_addr) (Some 1) /\
   ClientIndex.deref ex_ix 1 = Some (ClientIndex.normalize ex_on).
 Proof. exact ex_premises. Qed.
+
+(** * Round 5: "protection on / off" as a history (Model/Protection.v, shared
+    with C01: the switch operated through POST /control/protection with and
+    without a duration and through dns_config, the clock an input, the lazy
+    re-enable).  C01_protection_follows_last_switch states when protection is
+    in force; here: what that means for response filtering. *)
+From AGH Require Import Model.Protection Proofs.Protection.
+Local Open Scope Z_scope.
+
+(** The gate of response filtering over the history: it applies iff the
+    request stage passed, the LAST accepted switch says "in force" at the
+    instant of the request (switched on, whatever pause preceded; or a pause
+    whose deadline has been reached) and the client's filtering is on. *)
+Theorem C02_response_filtering_follows_last_switch :
+  forall allow_eng block_eng sb par ss srt c sw0 T0 s0 h t q,
+  agrees sw0 T0 s0 -> ordered T0 h -> calm s0 h -> last_instant T0 h <= t ->
+  let c' := cfg_after c s0 h t in
+  response_filtering_applies allow_eng block_eng sb par ss srt c' q <->
+  (passes_request_stage allow_eng block_eng sb par ss srt c' q no_result /\
+   expected (last_switch sw0 h) t = true /\ st_filtering (request_settings c' q) = true).
+Proof. exact response_filtering_after_history. Qed.
+Print Assumptions C02_response_filtering_follows_last_switch.
+
+(** After an accepted re-enable (or a pause that has run out) the first
+    offending record replaces the answer, whatever pause preceded it. *)
+Theorem C02_offending_record_blocks_after_history :
+  forall allow_eng block_eng sb par ss srt c sw0 T0 s0 h t up q r pre rr0 post res,
+  agrees sw0 T0 s0 -> ordered T0 h -> calm s0 h -> last_instant T0 h <= t ->
+  expected (last_switch sw0 h) t = true ->
+  let c' := cfg_after c s0 h t in
+  passes_request_stage allow_eng block_eng sb par ss srt c' q no_result ->
+  st_filtering (request_settings c' q) = true ->
+  up (q_name q) (q_qtype q) = Some r ->
+  rs_answer r = pre ++ rr0 :: post ->
+  Forall (clean allow_eng block_eng c' (request_settings c' q)) pre ->
+  check_rr allow_eng block_eng (request_settings c' q) (strip_rr c' rr0) = Some res ->
+  let o := process allow_eng block_eng sb par ss srt c' up q in
+  o_resp o = Some (synthetic c' (q_name q) (q_qtype q) (ips_from_rules res)) /\
+  o_result o = res /\ r_filtered res = true /\ r_reason res = FilteredBlockList /\
+  o_orig_kept o = true /\ o_calls o = [the_call q] /\ o_qname o = q_name q.
+Proof. exact offending_record_blocks_after_history. Qed.
+Print Assumptions C02_offending_record_blocks_after_history.
+
+(** What the request reads is the state machine's verdict; it is decided by
+    the last switch. *)
+Theorem C02_protection_after_history :
+  forall c sw0 T0 s0 h t,
+  agrees sw0 T0 s0 -> ordered T0 h -> calm s0 h -> last_instant T0 h <= t ->
+  protection_on (cfg_after c s0 h t) = expected (last_switch sw0 h) t.
+Proof. exact protection_after_history. Qed.
+Print Assumptions C02_protection_after_history.
+
+(** The seeded handler (C02-J: a request without a duration only stores the
+    flag): on, paused for an hour, switched on again: not in force until the
+    old deadline, so answers revealing blocked records are delivered. *)
+Theorem C02_reenable_keeps_deadline_refuted :
+  exists h t, prompt h /\ ordered 0 h /\ last_instant 0 h <= t /\ last_switch SwOn h = SwOn /\
+    in_force t (prot_run set_keeps_deadline conf_as_written (prot_init true None) h) = false /\
+    in_force t (run_now (prot_init true None) h) = true.
+Proof. exact reenable_keeps_deadline_refuted. Qed.
+Print Assumptions C02_reenable_keeps_deadline_refuted.
